@@ -113,6 +113,8 @@ def plan(tier, seed, args):
             "pbc_helpers": (8, 5, 6, 6),
             "atc_misc": (8, 5, 6, 6),
             "misc_direct": (6, 5, 6, 6),
+            "legacy_direct": (8, 5, 8, 6),
+            "legacy_sdmx": (6, 5, 6, 6),
         }
     else:
         table = {
@@ -127,6 +129,8 @@ def plan(tier, seed, args):
             "pbc_helpers": (200, 8, 200, 8),
             "atc_misc": (300, 8, 300, 8),
             "misc_direct": (100, 8, 100, 8),
+            "legacy_direct": (200, 8, 200, 8),
+            "legacy_sdmx": (150, 8, 150, 8),
         }
 
     if args.cases is not None:
@@ -567,8 +571,6 @@ def coverage(done, tier):
     for r in never:
         if "fft" in r.split(":")[1].split(".")[0] or "libfft_wrapper" in r:
             why[r] = "needs FFTW (absent in the sandbox)"
-        elif any(k in r for k in ("_num.", "SDMXcontract_ao_to_bas_grid", "SDMXeval_loop", "add_lp1_term_onsite", "compute_mol_convs_single.", "compute_num_spline_contribs", "compute_spline_bas.", "contract_grad_terms_old", "evaluate_se_kernel_spin_v2")):
-            why[r] = "no caller in the shipped Python (dead code or GPAW-only numerical-basis path)"
         else:
             why[r] = "not reached by this run's workloads"
     teams = {k[5:]: v for k, v in tot.items() if k.startswith("team_")}
